@@ -1,2 +1,237 @@
--- stub: replaced by the model driver of this property
-def main : IO Unit := pure ()
+import SdcModel.Basic.Io
+import SdcModel.XmlBinding
+open Sdc Sdc.XmlBinding
+
+/-! Model driver for C05 (`XmlBinding`). Every string is a token `h<hex of utf-8>`; `-` = absent.
+
+schema:  `S h<name> <hasNT> <h<nodetype>|-> <n> (h<propname> <kind>)*n`     (classes in index order)
+   kind = `attr h<n> h<conv> <opt> <vol>` | `attrList h<n> h<conv> <opt>`
+        | `text <h<sub>|-> h<conv> <opt> <minLen> <plain|enumQName|qname|date> <h<dflt>|->`
+        | `textList <h<sub>|-> h<conv> <opt>` | `subTextList h<n> h<conv>`
+        | `sub <h<n>|-> <cls> <opt> <container> <skipEmpty> <dispatch> <-|val>` | `subList h<n> <cls> <container> <dispatch>`
+        | `raw <h<sub>|-> <ext|any|anyList> <opt>`
+         `T <reg> h<qname> <cls>`
+codec:   `cx h<conv> h<py> h<lex>` | `cp h<conv> h<lex> <h<py>|!>` | `now h<py>`
+ops:     `w <cls> h<tag> <val>` -> `ok <xml>` | `err`        `r <cls> <xml>` -> `ok <val>` | `err`
+   val = `n` | `a h<py>` | `l <n> <val>*n` | `o <cls> <n> <val>*n` | `r <n> <xml>*n`
+   xml = `x h<tag> <na> (h<name> h<value>)*na h<text> <nk> <xml>*nk`        (attributes sorted by name in the answer) -/
+
+abbrev Toks := List String
+
+def hexVal (c : Char) : Option Nat :=
+  if '0' ≤ c && c ≤ '9' then some (c.toNat - '0'.toNat)
+  else if 'a' ≤ c && c ≤ 'f' then some (c.toNat - 'a'.toNat + 10)
+  else none
+
+def unhexBytes : List Char → Option (List UInt8)
+  | [] => some []
+  | a :: b :: r => match hexVal a, hexVal b, unhexBytes r with
+    | some x, some y, some bs => some (UInt8.ofNat (x * 16 + y) :: bs)
+    | _, _, _ => none
+  | _ => none
+
+def unhex (t : String) : Option String :=
+  match t.toList with
+  | 'h' :: r => (unhexBytes r).bind fun bs => String.fromUTF8? ⟨bs.toArray⟩
+  | _ => none
+
+def hexDigit (n : Nat) : Char := if n < 10 then Char.ofNat ('0'.toNat + n) else Char.ofNat ('a'.toNat + n - 10)
+
+def hex (s : String) : String :=
+  "h" ++ String.mk (s.toUTF8.toList.flatMap fun b => [hexDigit (b.toNat / 16), hexDigit (b.toNat % 16)])
+
+def optHex (t : String) : Option (Option String) := if t == "-" then some none else (unhex t).map some
+
+def bool? (t : String) : Option Bool := if t == "1" then some true else if t == "0" then some false else none
+
+mutual
+def pXml : Nat → Toks → Option (Xml × Toks)
+  | 0, _ => none
+  | f + 1, "x" :: tag :: na :: r => do
+    let tag ← unhex tag
+    let na ← na.toNat?
+    let (as, r) ← pAttrs na r
+    match r with
+    | tx :: nk :: r => do
+      let tx ← unhex tx
+      let nk ← nk.toNat?
+      let (ks, r) ← pXmls f nk r
+      pure (.node tag as ks tx, r)
+    | _ => none
+  | _ + 1, _ => none
+def pXmls : Nat → Nat → Toks → Option (List Xml × Toks)
+  | 0, _, _ => none
+  | _ + 1, 0, r => some ([], r)
+  | f + 1, n + 1, r => do
+    let (x, r) ← pXml f r
+    let (xs, r) ← pXmls f n r
+    pure (x :: xs, r)
+def pAttrs : Nat → Toks → Option (Attrs × Toks)
+  | 0, r => some ([], r)
+  | n + 1, k :: v :: r => do
+    let k ← unhex k
+    let v ← unhex v
+    let (as, r) ← pAttrs n r
+    pure ((k, v) :: as, r)
+  | _ + 1, _ => none
+end
+
+mutual
+def pVal : Nat → Toks → Option (Val × Toks)
+  | 0, _ => none
+  | _ + 1, "n" :: r => some (.none, r)
+  | _ + 1, "a" :: s :: r => (unhex s).map fun s => (.atom s, r)
+  | f + 1, "l" :: n :: r => do
+    let n ← n.toNat?
+    let (vs, r) ← pVals f n r
+    pure (.list vs, r)
+  | f + 1, "o" :: c :: n :: r => do
+    let c ← c.toNat?
+    let n ← n.toNat?
+    let (vs, r) ← pVals f n r
+    pure (.obj c vs, r)
+  | f + 1, "r" :: n :: r => do
+    let n ← n.toNat?
+    let (xs, r) ← pXmls f n r
+    pure (.raw xs, r)
+  | _ + 1, _ => none
+def pVals : Nat → Nat → Toks → Option (List Val × Toks)
+  | 0, _, _ => none
+  | _ + 1, 0, r => some ([], r)
+  | f + 1, n + 1, r => do
+    let (v, r) ← pVal f r
+    let (vs, r) ← pVals f n r
+    pure (v :: vs, r)
+end
+
+def insertSorted (p : String × String) : Attrs → Attrs
+  | [] => [p]
+  | q :: r => if p.1 < q.1 then p :: q :: r else q :: insertSorted p r
+
+def sortAttrs (a : Attrs) : Attrs := a.foldr insertSorted []
+
+mutual
+def dXml : Xml → String
+  | .node t a ks tx =>
+    let sa := sortAttrs a
+    "x " ++ hex t ++ " " ++ toString sa.length
+      ++ String.join (sa.map fun p => " " ++ hex p.1 ++ " " ++ hex p.2)
+      ++ " " ++ hex tx ++ " " ++ toString ks.length ++ dXmls ks
+def dXmls : List Xml → String
+  | [] => ""
+  | x :: xs => " " ++ dXml x ++ dXmls xs
+end
+
+mutual
+def dVal : Val → String
+  | .none => "n"
+  | .atom s => "a " ++ hex s
+  | .list vs => "l " ++ toString vs.length ++ dVals vs
+  | .obj c vs => "o " ++ toString c ++ " " ++ toString vs.length ++ dVals vs
+  | .raw xs => "r " ++ toString xs.length ++ dXmls xs
+def dVals : List Val → String
+  | [] => ""
+  | v :: vs => " " ++ dVal v ++ dVals vs
+end
+
+def pStyle : String → Option TextStyle
+  | "plain" => some .plain | "enumQName" => some .enumQName | "qname" => some .qname | "date" => some .date | _ => none
+
+def pRaw : String → Option RawStyle
+  | "ext" => some .ext | "any" => some .any | "anyList" => some .anyList | _ => none
+
+def pKind (f : Nat) : Toks → Option (Kind × Toks)
+  | "attr" :: n :: c :: o :: v :: r => do
+    pure (.attr (← unhex n) (← unhex c) (← bool? o) (← bool? v), r)
+  | "attrList" :: n :: c :: o :: r => do pure (.attrList (← unhex n) (← unhex c) (← bool? o), r)
+  | "text" :: s :: c :: o :: m :: st :: d :: r => do
+    pure (.text (← optHex s) (← unhex c) (← bool? o) (← bool? m) (← pStyle st) (← optHex d), r)
+  | "textList" :: s :: c :: o :: r => do pure (.textList (← optHex s) (← unhex c) (← bool? o), r)
+  | "subTextList" :: n :: c :: r => do pure (.subTextList (← unhex n) (← unhex c), r)
+  | "sub" :: n :: c :: o :: ct :: sk :: d :: r => do
+    let n ← optHex n
+    let c ← c.toNat?
+    let o ← bool? o
+    let ct ← bool? ct
+    let sk ← bool? sk
+    let d ← d.toNat?
+    match r with
+    | "-" :: r => pure (.sub n c o ct sk d none, r)
+    | r => do
+      let (v, r) ← pVal f r
+      pure (.sub n c o ct sk d (some v), r)
+  | "subList" :: n :: c :: ct :: d :: r => do pure (.subList (← unhex n) (← c.toNat?) (← bool? ct) (← d.toNat?), r)
+  | "raw" :: s :: st :: o :: r => do pure (.raw (← optHex s) (← pRaw st) (← bool? o), r)
+  | _ => none
+
+def pPropEs (f : Nat) : Nat → Toks → Option (List PropE × Toks)
+  | 0, r => some ([], r)
+  | n + 1, nm :: r => do
+    let nm ← unhex nm
+    let (k, r) ← pKind f r
+    let (ps, r) ← pPropEs f n r
+    pure (⟨nm, k⟩ :: ps, r)
+  | _ + 1, [] => none
+
+structure DSt where
+  S : Schema := ⟨[], []⟩
+  cx : List ((String × String) × String) := []        -- (conv, py) -> lexical
+  cp : List ((String × String) × Option String) := [] -- (conv, lexical) -> py
+  now : String := ""
+
+def isWs (c : Char) : Bool := c == ' ' || c == '\t' || c == '\n' || c == '\r'
+
+def splitWs (s : String) : List String :=
+  ((s.toList.splitBy fun a b => !isWs a && !isWs b).filter fun g => g.all (!isWs ·)).map String.mk
+
+def DSt.codec (st : DSt) : Codec where
+  toXml := fun c p => (st.cx.find? fun e => e.1.1 == c && e.1.2 == p).map (·.2)
+  toPy := fun c l => ((st.cp.find? fun e => e.1.1 == c && e.1.2 == l).map (·.2)).join
+  join := fun ls => " ".intercalate ls
+  split := splitWs
+  now := st.now
+
+def fuelOf (ts : Toks) : Nat := ts.length + 2
+
+def stepLine (st : DSt) (line : String) : DSt × String :=
+  let ts := Io.words line
+  let f := fuelOf ts
+  match ts with
+  | "S" :: nm :: hn :: nt :: n :: r =>
+    match unhex nm, bool? hn, optHex nt, n.toNat? with
+    | some nm, some hn, some nt, some n => match pPropEs f n r with
+      | some (ps, []) => ({ st with S := { st.S with classes := st.S.classes ++ [⟨nm, hn, nt, ps⟩] } }, "ok")
+      | _ => (st, "bad-op")
+    | _, _, _, _ => (st, "bad-op")
+  | ["T", reg, q, c] => match reg.toNat?, unhex q, c.toNat? with
+    | some reg, some q, some c => ({ st with S := { st.S with types := st.S.types ++ [(reg, q, c)] } }, "ok")
+    | _, _, _ => (st, "bad-op")
+  | ["cx", c, p, l] => match unhex c, unhex p, unhex l with
+    | some c, some p, some l => ({ st with cx := ((c, p), l) :: st.cx }, "ok")
+    | _, _, _ => (st, "bad-op")
+  | ["cp", c, l, p] => match unhex c, unhex l with
+    | some c, some l =>
+      if p == "!" then ({ st with cp := ((c, l), none) :: st.cp }, "ok")
+      else match unhex p with
+        | some p => ({ st with cp := ((c, l), some p) :: st.cp }, "ok")
+        | none => (st, "bad-op")
+    | _, _ => (st, "bad-op")
+  | ["now", p] => match unhex p with
+    | some p => ({ st with now := p }, "ok")
+    | none => (st, "bad-op")
+  | ["resetcodec"] => ({ st with cx := [], cp := [] }, "ok")
+  | "w" :: c :: tag :: r => match c.toNat?, unhex tag, pVal f r with
+    | some c, some tag, some (.obj c' fs, []) =>
+      if c' = c then match writeCls st.codec st.S f c fs tag with
+        | some x => (st, "ok " ++ dXml x)
+        | none => (st, "err")
+      else (st, "bad-op")
+    | _, _, _ => (st, "bad-op")
+  | "r" :: c :: r => match c.toNat?, pXml f r with
+    | some c, some (x, []) => match readCls st.codec st.S f c x with
+      | some v => (st, "ok " ++ dVal v)
+      | none => (st, "err")
+    | _, _ => (st, "bad-op")
+  | _ => (st, "bad-op")
+
+def main : IO Unit := Io.lineLoop stepLine {}
